@@ -3,8 +3,9 @@
 Decided: how a request reaches a handler (registration closure), what dominates
 the handler call inside the authorizing wrapper, exact-secret extraction, the
 upload-secret gate in front of every in-progress BucketWriter, routing of the
-lease secrets / write enabler to the backend, and absence of server-state
-access before authorization (DESIGN.md section 5, C30)."""
+lease secrets / write enabler to the backend, absence of server-state
+access before authorization, and delivery of a rejection to the client as a
+4xx status (DESIGN.md section 5, C30)."""
 from sa.h import *
 
 EXPLANATION = (
@@ -26,9 +27,17 @@ EXPLANATION = (
     "every new writer under authorization[UPLOAD]; (5) handlers read only declared secrets; state-changing "
     "backend calls receive the matching declared secrets (write enabler first), BadWriteEnablerError -> 401; "
     "(6) before both gates of (2) hold, `route` evaluates nothing that mentions self (except "
-    "self._swissnum), the handler, or its arguments. "
-    "Undecided: base64/CBOR value-level behaviour, Klein/werkzeug routing internals, secrecy of the "
-    "swissnum in transit, duplicate-header precedence.")
+    "self._swissnum), the handler, or its arguments; (8) `route` reaches its normal exit only after the handler "
+    "call returned (or after request.setResponseCode), so an _HTTPError rejection is never swallowed into a "
+    "200; every _HTTPError raised by `route` itself carries a constant 4xx code in the code position; "
+    "_add_error_handling registers a handle_errors(_HTTPError) handler that calls "
+    "request.setResponseCode(failure.value.code) on every path, and HTTPServer installs it on its Klein app; "
+    "(7) write-enabler guard adopted from C24.4/C24.5. "
+    "Undecided: base64/CBOR value-level behaviour, Klein/werkzeug routing internals (incl. how Klein renders "
+    "a None result and dispatches handle_errors), whether the eliot action context manager swallows "
+    "exceptions, secrecy of the swissnum in transit, duplicate-header precedence (which of several "
+    "Authorization headers is compared), over-rejection (edits that refuse correct credentials), response "
+    "bodies / success status codes of the handlers, the lease-secret order inside the storage backend.")
 TECHNIQUE = "static analysis: reference closure of the Klein app, CFG dominance with normalised edge facts, who-may-read"
 
 MOD = "allmydata.storage.http_server"
@@ -424,6 +433,79 @@ def run(ctx: Context):
                             "(path: %s)" % (src(fn, n.ast if n.kind != "with" else n.ast.items[0].context_expr),
                                             witness(cfg, parent, (nid, st)).brief()),
                             witness(cfg, parent, (nid, st)))
+
+    # ---------------------------------------------------------------- 8 -------
+    # A rejection (wrong swissnum, bad secrets, wrong upload secret / write enabler raised by the handler) is an
+    # _HTTPError travelling out of `route` to the Klein error handler, which turns .code into the status.  If
+    # `route` can reach its normal exit without the handler having returned, the rejected request is answered
+    # "200 OK, empty body"; if the Klein error handler is missing or ignores .code, it is answered 500 / a fixed code.
+    with ctx.rule("C30.8", "R1/R4", "a rejection reaches the client: route returns normally only after the handler "
+                  "returned (or a response code was set explicitly); the Klein app has an _HTTPError handler that "
+                  "answers with the error's code", expected=3) as r:
+        def sets_code(n, req=reqp):
+            return any(call_tail(c) == "setResponseCode" and isinstance(c.func, ast.Attribute)
+                       and attr_path(c.func.value) == req for c in node_calls(n))
+        r.site(fn, None, "normal exits of route")
+        for (t, w) in find_path_avoiding(cfg, lambda n: n.kind == "exit",
+                                         gate_node=lambda n: is_fcall(n) or sets_code(n)):
+            last = [n for (n, _l) in w.path if n.kind in ("stmt", "except", "test")]
+            at = last[-1].ast if last else None
+            r.violation(fn, fn.loc(at), "route can return normally although the handler did not: a rejected request "
+                        "(wrong swissnum / secrets) is answered as a success instead of 401/400 (path: %s)" % w.brief(), w)
+        # every rejection raised by route itself carries a client-error status as the code argument
+        herr = idx.cls("storage.http_server:_HTTPError")
+        init = herr.methods.get("__init__")
+        code_kw = first_positional_params(init)[0] if init is not None and first_positional_params(init) else "code"
+        for n in cfg.find(is_raise):
+            e = n.ast.exc
+            if not (isinstance(e, ast.Call) and call_tail(e) == "_HTTPError"):
+                continue
+            ca = arg(e, 0, code_kw)
+            cr = fnorm.resolve(n, ca) if ca is not None else None
+            code = http_code(cr) if cr is not None else None
+            if code is None and isinstance(cr, (ast.Name, ast.Attribute)) and not (attr_path(cr) or "http.").startswith("http."):
+                continue   # a status computed elsewhere: value-level, not decided here
+            r.require(code is not None and 400 <= code <= 499, fn, fn.loc(n.ast),
+                      "route rejects with %s: the status is not a 4xx code, the client is not told it was refused" % src(fn, e))
+        # the Klein error handler
+        aeh = idx.func("storage.http_server:_add_error_handling")
+        appp = first_positional_params(aeh)[0] if first_positional_params(aeh) else None
+        handlers = []
+        for h in aeh.nested.values():
+            for d in h.decorators():
+                if isinstance(d, ast.Call) and call_tail(d) == "handle_errors" and isinstance(d.func, ast.Attribute) \
+                        and attr_path(d.func.value) == appp \
+                        and any(attr_path(a) == "_HTTPError" for a in d.args):
+                    handlers.append((h, d))
+        r.require(bool(handlers), aeh, aeh.loc(), "_add_error_handling registers no handle_errors(_HTTPError) handler: "
+                  "every rejection becomes a 500")
+        for (h, d) in handlers:
+            r.site(h, d, "_HTTPError -> status code")
+            a = h.node.args
+            allp = [x.arg for x in a.posonlyargs + a.args]
+            if len(allp) < 3:
+                raise AnchorVanished("%s parameters" % h.qual)
+            hreq, hfail = allp[1], allp[2]
+            hn = FlowNorm(h)
+            want_code = norm_src("%s.value.code" % hfail)
+
+            def answers(n, _req=hreq, _hn=hn, _want=want_code):
+                for c in node_calls(n):
+                    if call_tail(c) == "setResponseCode" and isinstance(c.func, ast.Attribute) \
+                            and attr_path(c.func.value) == _req and c.args and _hn.norm(n, c.args[0]) == _want:
+                        return True
+                return False
+            for (t, w) in find_path_avoiding(h.cfg(), lambda n: n.kind == "exit", gate_node=answers,
+                                             kill=stores_any([hreq, hfail])):
+                r.violation(h, h.loc(), "the _HTTPError handler can finish without %s.setResponseCode(%s.value.code): "
+                            "a 401/400 rejection is answered with another status (path: %s)" % (hreq, hfail, w.brief()), w)
+        # .. is installed on the HTTPServer app
+        installs = [c for st in hs.node.body if not isinstance(st, (ast.FunctionDef, ast.AsyncFunctionDef, ast.ClassDef))
+                    for c in ast.walk(st) if isinstance(c, ast.Call) and call_tail(c) == "_add_error_handling"
+                    and c.args and isinstance(c.args[0], ast.Name) and c.args[0].id == klein_apps(hs)[0]]
+        r.site(MOD + ":HTTPServer", None, "error handling installed: %d" % len(installs))
+        r.require(bool(installs), MOD + ":HTTPServer", mod.relpath,
+                  "HTTPServer never calls _add_error_handling(%s): _HTTPError rejections are answered with 500" % klein_apps(hs)[0])
 
     # ---------------------------------------------------------------- 3 -------
     with ctx.rule("C30.3", "R1", "_extract_secrets: return only with result.keys() == required_secrets; a secret is "
